@@ -203,3 +203,35 @@ def site_subst(subst, site):
             for i, b in enumerate(v.get("binds") or []):
                 out[b] = ["bind%d" % i, each]
     return out
+
+
+def resolve_lambda(fn, e):
+    """`["lambda", q]` itself, or the lambda held by a local that is defined exactly once (a *named* lambda passed to an
+    algorithm): `const auto pred = [..](..){..}; std::any_of(b, e, pred)`.  Copy-constructor wrappers are looked through."""
+    e = strip_wrappers(e) if is_expr(e) else e
+    seen = set()
+    while is_expr(e) and e[0] == "local" and e[1] not in seen:
+        seen.add(e[1])
+        vals = local_values(fn, e[1])
+        if len(vals) != 1 or not is_expr(vals[0][1]):
+            return None
+        e = vals[0][1]
+        while is_expr(e) and e[0] in ("ctor", "init", "cast") and len(e) == 3 and is_expr(e[2]):
+            e = e[2]
+    return e if is_expr(e) and e[0] == "lambda" else None
+
+
+def index_loop(loop, subst=None):
+    """(range text, index variable or None) of a loop over a whole container, in either spelling:
+    `for (x : R)` / an engine-normalised counting loop -> ("R", i or None); `for (T i = 0; i < R.size(); ++i)` -> ("R", "i")."""
+    key = loop_range_key(loop, subst)
+    ivar = None
+    if loop.get("k") == "for" and isinstance(loop.get("init"), dict):
+        ivar = loop["init"].get("n")
+    m = re.fullmatch(r"each\((.+)\)", key)
+    if m:
+        return m.group(1), ivar
+    m = re.fullmatch(r"for\(0; (\w+) < (.+)\.size\(\)\)", key)
+    if m:
+        return m.group(2), m.group(1)
+    return None, ivar
